@@ -93,6 +93,7 @@ std::vector<size_t> g_sizes;
 std::vector<char> g_kinds; // 'r' memory buffer, 'f' file buffer (sendfile)
 std::vector<std::string> g_files;
 bool g_foreign = false;
+std::atomic<bool> g_handler_done { false }; // the "go" handler has returned
 bool g_fixed_sndbuf = false; // S ... f: flush twice from the handler; A has a small receive buffer, so that the blocked socket stays full
 
 class WriteHandler : public Tcp::Handler
@@ -148,6 +149,7 @@ public:
                     transport()->flush();
                 }
             }
+            g_handler_done = true;
         }
         else if (cmd.rfind("multi", 0) == 0)
         {
@@ -226,6 +228,7 @@ static std::string handle(const std::string& line)
     if (t.size() < 3)
         return "BADCASE";
     pv_hooks::send_fn = &scripted_send;
+    g_handler_done    = false;
     g_script.outcomes.clear();
     g_script.next     = 0;
     g_script.fd       = -1;
@@ -494,7 +497,11 @@ static std::string handle(const std::string& line)
         long calls_before = 0;
         if (with_flush)
         {
-            // the handler has flushed twice (see "go"): everything it queued is pending behind the blocked write
+            // the handler flushes 17 times (see "go"): everything it queued is pending behind the blocked write. Each attempt
+            // copies what remains of the blocked buffer, which takes the handler a while for large buffers: what is measured is
+            // the worker once the handler has returned (a handler that never returns because the flush spins counts as a stall)
+            for (int k = 0; k < stall / 10 && !g_handler_done; ++k)
+                std::this_thread::sleep_for(std::chrono::milliseconds(5));
             calls_before = g_script.calls.load();
             total += 16 * 4;
             for (int k = 0; k < 16; ++k)
